@@ -558,8 +558,7 @@ def main(check, argv=None):
         total, per_part, errors = run_parts(check, parts, findings, args.tier, seed, workdir)
         shutil.rmtree(workdir, ignore_errors=True)
         if errors:
-            for e in errors:
-                sys.stderr.write('HARNESS ERROR: %s\n' % e)
+            sys.stderr.write('HARNESS ERROR (%d worker errors, first shown): %s\n' % (len(errors), errors[0]))
             return 2
         seen = set()
         per_bucket = {}
